@@ -146,6 +146,7 @@ def m_C05(tier):
                 cfgs.append(C(mod, alg, 2, False, 'default', backend, nargs=5, spellings=0, wide=True))
             if tier == 'thorough':
                 cfgs.append(C(mod, alg, 3, False, 'default', 'dict', nargs=6, spellings=0, wide=True))
+    cfgs += [c for c in twin_configs(tier) if c['alg'] in BOUNDED]
     if tier == 'thorough':
         for mod in MODULES:
             for alg in BOUNDED:
@@ -204,6 +205,13 @@ def m_C02(tier):
                 for purge in ((False,) if alg in ('no', 'inf') else (False, True)):
                     cfgs.append(C(mod, alg, None if alg in ('no', 'inf') else 1, purge, 'str', b, nargs=2, spellings=1))
     cfgs += falsy_configs(tier)
+    # narrow and deep: two keys, the archive toggles and the archive replacement (state parked by a toggle only
+    # matters several operations later)
+    for mod in MODULES:
+        for alg in (('lru', 'lfu') if tier == 'quick' else BOUNDED):
+            cfgs.append(C(mod, alg, 1, False, 'default', 'dict', nargs=2, spellings=0,
+                          narrow=[['arch', False], ['arch', True], ['newarch'], ['dump']], depth=7 if tier == 'quick' else 8,
+                          states=3000 if tier == 'quick' else 20000))
     return cfgs
 
 
@@ -249,6 +257,7 @@ def m_C15(tier):
         for km in ('raw', 'hash'):
             for backend, init in (('none', 'empty'), ('dict', 'seeded_archive')):
                 cfgs.append(C('safe', alg, None if alg in ('no', 'inf') else 1, False, km, backend, init, nargs=2, spellings=1, unkeyable=True))
+    cfgs += twin_configs(tier)
     return cfgs
 
 
@@ -295,6 +304,7 @@ def m_C18(tier):
             # float arguments that really are rounded (positionally and by keyword)
             cfgs.append(C(mod, alg, ms, False, 'str', 'dict', tol=1, args='float'))
             cfgs.append(C(mod, alg, ms, False, 'default', 'dict', tol=0, deep=True, args='float'))
+    cfgs += twin_configs(tier)
     if tier == 'thorough':
         for mod in MODULES:
             for alg in ALL:
@@ -314,7 +324,7 @@ def m_C20(tier):
                         if purge and backend != 'dict':
                             continue
                         cfgs.append(C(mod, alg, ms, purge, 'default', backend, init, nargs=2, spellings=1))
-            for km in ('str', 'pickle'):
+            for km in ('str', 'pickle') + (('rawsent', 'strsent', 'md5sent', 'chain', 'rawtyped', 'picklenf') if (tier == 'thorough' or alg in ('lru', 'inf')) else ('strsent',)):
                 cfgs.append(C(mod, alg, sizes[0], False, km, 'dict', nargs=2, spellings=1))
             # rounding configuration must survive the round trip: float arguments, tol None / 0 / 1, deep or not
             for tol, deep in ((None, False), (None, True), (0, True), (1, False)):
@@ -333,7 +343,7 @@ def ev_for(prop, cfg, tier):
     n = cfg.get('nargs', 3)
     sp = cfg.get('spellings', 2)
     if cfg.get('twin'):
-        return call_events(n, sp) + [('tcall', i) for i in range(n)] + [('dump',), ('clear',), ('load',), ('raise', 0, 'Boom')]
+        return call_events(n, sp) + [('tcall', i) for i in range(n + sp)] + [('tlookup', 0), ('tlookup', n + 1), ('clear',), ('raise', 0, 'Boom')]
     if cfg.get('narrow'):
         ev = call_events(n, sp) + [tuple(m) for m in cfg['narrow']]
         if cfg['alg'] == 'lfu':
@@ -422,14 +432,16 @@ def make_monitors_for(prop):
 def twin_configs(tier):
     """a second function decorated by a second decorator of the same class (nothing shared by design)"""
     cfgs = []
+    lim = dict(depth=4, states=500) if tier == 'quick' else dict(depth=6, states=6000)
     for mod in MODULES:
         for alg in ALL:
             ms = None if alg in ('no', 'inf') else 2
             for backend in (('none', 'dict') if tier == 'quick' else ('none', 'dict', 'plaindict')):
-                cfgs.append(C(mod, alg, ms, False, 'default', backend, nargs=3, spellings=1, twin=True))
-            cfgs.append(C(mod, alg, ms, False, 'default', 'none', nargs=3, spellings=1, twin='same-decorator'))
+                cfgs.append(C(mod, alg, ms, False, 'default', backend, nargs=3, spellings=2, twin=True, **lim))
+            cfgs.append(C(mod, alg, ms, False, 'default', 'none', nargs=3, spellings=2, twin='same-decorator', **lim))
+            cfgs.append(C(mod, alg, ms, False, 'default', 'none', nargs=3, spellings=2, twin='constructed-first', **lim))
             if tier == 'thorough':
-                cfgs.append(C(mod, alg, ms, alg in BOUNDED, 'str', 'dict', nargs=3, spellings=1, twin=True))
+                cfgs.append(C(mod, alg, ms, alg in BOUNDED, 'str', 'dict', nargs=3, spellings=1, twin=True, **lim))
     return cfgs
 
 
